@@ -81,16 +81,15 @@ theorem tblFns_single_para (id n : Nat) (lineH : Rat) (st : PStyle) (calls : Lis
 
 mutual
 theorem footOk_of (pre post : List (Nat × Nat × Fn)) : (b : FootBox) → NoFixedHeight b.erase → WellFormed b.erase →
-    NoBlockPolicy b → CallsOk b → (paraIds b).Nodup → (∀ e ∈ pre ++ post, e.1 ∉ paraIds b) →
+    CallsOk b → (paraIds b).Nodup → (∀ e ∈ pre ++ post, e.1 ∉ paraIds b) →
     FootOk (pre ++ callTable b ++ post) b
   | .para id n lineH st calls => by
-    intro hN hW hB hC _ hctx
+    intro hN hW hC _ hctx
     simp only [FootBox.erase, NoFixedHeight] at hN
     simp only [FootBox.erase, WellFormed] at hW
-    simp only [NoBlockPolicy] at hB
     simp only [CallsOk] at hC
     simp only [FootOk]
-    refine ⟨hN, hW.1, hW.2, fun c hc => ⟨hB c hc, hC.1 c hc⟩, ?_⟩
+    refine ⟨hN, hW.1, hW.2, fun c hc => hC.1 c hc, ?_⟩
     intro i
     rw [tblFns_single_append, tblFns_single_append, tblFns_single_para]
     have h1 : tblFns pre [(id, i)] = [] := by
@@ -103,23 +102,21 @@ theorem footOk_of (pre post : List (Nat × Nat × Fn)) : (b : FootBox) → NoFix
       exact hctx e (by simp [he]) (by simp [paraIds, heq])
     simp [h1, h2]
   | .block id st kids => by
-    intro hN hW hB hC hU hctx
+    intro hN hW hC hU hctx
     simp only [FootBox.erase, NoFixedHeight] at hN
     simp only [FootBox.erase, WellFormed] at hW
-    simp only [NoBlockPolicy] at hB
     simp only [CallsOk] at hC
     simp only [paraIds] at hU hctx
     simp only [FootOk, callTable]
-    exact ⟨hN.1, footOkList_of pre post kids hN.2 hW hB hC hU hctx⟩
+    exact ⟨hN.1, footOkList_of pre post kids hN.2 hW hC hU hctx⟩
 theorem footOkList_of (pre post : List (Nat × Nat × Fn)) : (bs : List FootBox) → NoFixedHeightList (eraseList bs) →
-    WellFormedList (eraseList bs) → NoBlockPolicyList bs → CallsOkList bs → (paraIdsList bs).Nodup →
+    WellFormedList (eraseList bs) → CallsOkList bs → (paraIdsList bs).Nodup →
     (∀ e ∈ pre ++ post, e.1 ∉ paraIdsList bs) → FootOkList (pre ++ callTableList bs ++ post) bs
-  | [] => by intro _ _ _ _ _ _; simp [FootOkList]
+  | [] => by intro _ _ _ _ _; simp [FootOkList]
   | b :: bs => by
-    intro hN hW hB hC hU hctx
+    intro hN hW hC hU hctx
     simp only [eraseList, NoFixedHeightList] at hN
     simp only [eraseList, WellFormedList] at hW
-    simp only [NoBlockPolicyList] at hB
     simp only [CallsOkList] at hC
     simp only [paraIdsList] at hU hctx
     rw [List.nodup_append] at hU
@@ -128,7 +125,7 @@ theorem footOkList_of (pre post : List (Nat × Nat × Fn)) : (bs : List FootBox)
     · have e1 : pre ++ (callTable b ++ callTableList bs) ++ post = pre ++ callTable b ++ (callTableList bs ++ post) := by
         simp
       rw [e1]
-      apply footOk_of pre (callTableList bs ++ post) b hN.1 hW.1 hB.1 hC.1 hU.1
+      apply footOk_of pre (callTableList bs ++ post) b hN.1 hW.1 hC.1 hU.1
       intro e he hin
       simp only [List.mem_append] at he
       rcases he with h | h | h
@@ -138,7 +135,7 @@ theorem footOkList_of (pre post : List (Nat × Nat × Fn)) : (bs : List FootBox)
     · have e2 : pre ++ (callTable b ++ callTableList bs) ++ post = (pre ++ callTable b) ++ callTableList bs ++ post := by
         simp
       rw [e2]
-      apply footOkList_of (pre ++ callTable b) post bs hN.2 hW.2 hB.2 hC.2 hU.2.1
+      apply footOkList_of (pre ++ callTable b) post bs hN.2 hW.2 hC.2 hU.2.1
       intro e he hin
       simp only [List.mem_append] at he
       rcases he with (h | h) | h
@@ -148,9 +145,9 @@ theorem footOkList_of (pre post : List (Nat × Nat × Fn)) : (bs : List FootBox)
 end
 
 /-- The bundled hypothesis of the conservation proof, from what a user can check on the document. -/
-theorem footOk_root (b : FootBox) (hN : NoFixedHeight b.erase) (hW : WellFormed b.erase) (hB : NoBlockPolicy b)
+theorem footOk_root (b : FootBox) (hN : NoFixedHeight b.erase) (hW : WellFormed b.erase)
     (hC : CallsOk b) (hU : UniqueParaIds b) : FootOk (callTable b) b := by
-  have := footOk_of [] [] b hN hW hB hC hU (by simp)
+  have := footOk_of [] [] b hN hW hC hU (by simp)
   simpa using this
 
 /-! ### calls in line order -/
